@@ -197,30 +197,17 @@ def _line_kind_tag(text, lineno):
     return k[0]
 
 
-def _is_known_redefine(text, lineno):
-    """Line `lineno` re-defines a name with a value text that is not its own
-    expansion (the situation of the known C05 defect)."""
-    lines = T.physical_lines(text)
-    if lineno is None or lineno < 1 or lineno > len(lines):
-        return False
+def _is_known_defect(text, obs_trace, obs_final):
+    """The parser behaves exactly like the known-defect model of C05."""
     try:
-        k = T.line_kind(lines[lineno - 1])
-    except T.RefSyntax:
-        return False
-    if k[0] != "directive" or k[1] != "define":
-        return False
-    try:
-        before = T.parse_events("\n".join(lines[:lineno - 1]) + "\n",
-                                env=os.environ).defines
+        ev = T.parse_events(
+            text, env=os.environ,
+            define_step=T.define_step_compares_unexpanded)
+        trace, final, exc = ev.trace, ("ok",), None
     except T.RefError as e:
-        before = e.events.defines
-    name, raw = T.split_define(k[2])
-    if name.lower() not in before:
-        return False
-    try:
-        return T.subst(raw, before, os.environ) != raw
-    except T.RefError:
-        return True
+        trace, final, exc = e.events.trace, _ref_final(e), e
+    return _final_matches(final, exc, obs_final) is None and \
+        trace == obs_trace
 
 
 def _sig(text, what, exp, obs):
@@ -228,8 +215,6 @@ def _sig(text, what, exp, obs):
     cands = [x[1] for x in (exp, obs)
              if x[0] in ("syntax", "replacement") and isinstance(x[1], int)]
     lineno = min(cands) if cands else None
-    if _is_known_redefine(text, lineno):
-        return "C05:redefine-compares-unexpanded"
     kind = _line_kind_tag(text, lineno)
     if exp[0] == "ok" and obs[0] != "ok":
         return "C03:rejects-accepted-text:%s-line:%s" % (kind, obs[0])
@@ -254,18 +239,23 @@ def check_text(col, text, do_events=True):
     otrace, odefs, ofinal = real_events(text)
     col.evaluations += 1
     bad = _final_matches(efinal, eexc, ofinal)
+    if not bad and etrace != otrace:
+        bad = "trace"
+    if not bad and edefs != odefs:
+        bad = "defines"
     if bad:
-        col.violation(_sig(text, "parser-" + bad, efinal, ofinal),
-                      "ZConfigParser: outcome (" + bad + ") differs", text,
-                      _jsonable(efinal), _jsonable(ofinal))
-    elif etrace != otrace:
-        col.violation(_sig(text, "parser-trace", efinal, ofinal) + ":trace",
-                      "ZConfigParser: calls delivered to the context differ",
-                      text, _jsonable(etrace), _jsonable(otrace))
-    elif edefs != odefs:
-        col.violation("C03:parser-defines-differ",
-                      "ZConfigParser: define namespace differs", text,
-                      edefs, odefs)
+        if "%define" in text and _is_known_defect(text, otrace, ofinal):
+            sig = "C05:redefine-compares-unexpanded"
+        elif bad == "defines":
+            sig = "C03:parser-defines-differ"
+        else:
+            sig = _sig(text, "parser-" + bad, efinal, ofinal)
+        col.violation(sig, "ZConfigParser with a recording context: "
+                      + bad + " differs", text,
+                      {"final": _jsonable(efinal), "trace": _jsonable(etrace),
+                       "defines": edefs},
+                      {"final": _jsonable(ofinal), "trace": _jsonable(otrace),
+                       "defines": odefs})
     return exp
 
 
